@@ -327,7 +327,11 @@ class ElementList(MutableSequence):
         elif isinstance(value, Element):  # it is already an instance of Element
             child = value
         elif isinstance(value, BaseDataType):
-            child = self.create_element(name, False, reference)
+            if reference is None:
+                raise ChildNotFound(name)
+            # built on its own: it is attached below, in place of the addressed repetition or appended
+            child = reference['cls'](child_name, reference=child_ref, version=self.element.version,
+                                     validation_level=self.element.validation_level)
             child.value = value
         else:
             raise ChildNotValid(value, child_name)
